@@ -387,6 +387,18 @@ def extra(ctx):
               "FLOATVECTOR.RAND at 2^24+3, release binary, one supervised process per case (4 at a time), %d s wall-clock each: the step RETURNS (a step that does not is a violation) "
               "and exceeds the growth bound (known class alloc-by-operand-rand); the result vector is cut to 10^5+ elements before the Coq predicate reads it" % CASE_WALL_LIMIT_S,
               parallel=4)
+    # name bindings that form a cycle (A -> A, A -> B -> A, a three-cycle): one interpreter step resolves ONE link, so a step
+    # always returns and the step limit ends the run; a step that chased aliases to the end would never return
+    cyc = []
+    for binds in ([("A", N("A"))], [("A", N("B")), ("B", N("A"))], [("A", N("B")), ("B", N("C")), ("C", N("A"))], [("A", L(N("A"), N("A")))]):
+        for prof in (0, 1):
+            cyc.append(case_run(prof, state(exec=[N("A")], bind=binds), 0, 1))
+            cyc.append(case_run(prof, state(exec=[N("A")], bind=binds), 0, 50))
+            c = list(DEFAULT_CFG); c[4] = 200
+            cyc.append(case_run(prof, state(exec=[N("A")], bind=binds, cfg=c), 1, 0))
+    impl_only(ctx, "alias-cycles", cyc, "cyclic name bindings (A -> A, two- and three-cycles, a self-doubling list): 1 step, 50 steps and run() with a 200-step limit all return", time_limit=TIME_LIMIT_S, parallel=4)
+    # the wall-clock limit also works when it is longer than a second (a run under the DEFAULT 5000 ms relies on it)
+    vcheck.long_time_limit(ctx, "C15")
     # the scalar generators and CODE.RAND: bounded by the configured limits, results random
     cases = []
     for nm in sorted(stepgen.RANDOM - set(RANDVEC)):
